@@ -385,7 +385,7 @@ Proof. exact handler_sees_request_instance. Qed.
 ''')
 
 if "C12" in which:
-    put("C12", "Codec.Varint Codec.NV Codec.Vars Parser.ReqWire Parser.ReqTargets Parser.AbsStream Parser.StreamSpec Parser.StreamRefine Parser.StreamInv Async.ConnReads Async.LoopTargets Async.LoopProofs Async.LoopTargets2 Async.LoopProofs2", [
+    put("C12", "Codec.Varint Codec.NV Codec.Vars Parser.ReqWire Parser.ReqTargets Parser.AbsStream Parser.StreamSpec Parser.StreamRefine Parser.StreamInv Async.ConnReads Async.LoopTargets Async.LoopProofs Async.LoopTargets2 Async.LoopProofs2 Async.ConnTotal Async.ReadsWTargets Async.FrameTargets Async.FrameFaultTargets Async.FrameFaultProofs", [
         ("'no handler is invoked for a request whose preamble did not arrive completely': if everything the client will ever deliver "
          "(leftover included) is a PROPER prefix of a well-formed preamble — EOF, a transport error or a block anywhere inside it — "
          "parse_request never hands over to a handler, whatever the read and write patterns", "no_handler_for_partial", "C12_no_handler_for_partial_preamble", ["no_handler_for_partial_stmt"]),
@@ -401,6 +401,11 @@ if "C12" in which:
          "then either that entry is never reached or it is the LAST write call the task ever makes: the rest of the script is "
          "untouched, so no byte is accepted after the failed call", "nothing_after_failed_write", "C12_nothing_after_failed_write",
          ["nothing_after_failed_write_stmt"]),
+        ("'... and what was written before is a prefix of a well-formed record sequence': whatever the transport's write script - accept sizes, "
+         "Pending, and a first fault (zero-length write or write error) at ANY write call -, for every client, buffer size, fuel and handler "
+         "scripts that propagate I/O errors, the transport log of Token::run is at every end of the run a prefix of a byte string that decodes "
+         "completely into records (framed, Async/FrameTargets.v; the fault-free case is C10_connection_framing)", "connection_framing_faults",
+         "C12_connection_framing_under_faults", ["connection_framing_faults_stmt"]),
     ])
 
 if "C14" in which:
